@@ -6,6 +6,13 @@ VERIF = os.path.dirname(os.path.dirname(os.path.abspath(__file__)))
 rnd, outroot, wtprefix = sys.argv[1], sys.argv[2], sys.argv[3]
 props = [json.loads(l) for l in open(os.path.join(VERIF, "properties.jsonl"))]
 EMPH = {
+ "6": ("This round: pick a code site that NONE of the listed earlier changes touched (a different function, preferably a different file) and a trigger "
+       "from a dimension the earlier ones did not use. Dimensions worth considering: valid but unusual setting values and combinations of settings "
+       "(sizes, worker counts, addresses to bind, enable switches, topics, cpu cap, verbose logging, dynamic workers), properties of the environment "
+       "(where files live, what already exists at a path, time since start, wall-clock values, number of CPUs), long-running behaviour (counters, "
+       "sequence numbers or sizes crossing a power of two, growth of a cache or buffer over many messages), rarely used but valid protocol features, "
+       "and the order in which independent activities complete. The change should look like something a maintainer would merge (optimisation, "
+       "clean-up, small feature, hardening) and must not be detectable by a data-race detector alone."),
  "5": ("This round: prefer a change that could arrive as part of a plausible feature or maintenance commit (a performance optimisation, an "
        "error-handling or logging clean-up, a new option or metric, a dependency-style API adaptation) and whose violation shows only through the "
        "interplay of two components (e.g. worker + template cache, receive loop + shutdown, option parsing + the place where the option is used, "
